@@ -18,10 +18,26 @@ def work(case):
         return {"errors": ["worker: %r" % (e,)], "sched": [], "obs": [], "tapes": {}, "msgs": [], "devcalls": []}
 
 
-def run_all(cases, procs=16):
+def work_chunk(chunk):
+    return [work(c) for c in chunk]
+
+
+def run_all(cases, procs=16, chunk=8):
+    """Run cases in a process pool; a chunk that does not come back in time is reported as driver errors."""
     ctx = mp.get_context("fork")
-    with ctx.Pool(procs, maxtasksperchild=200) as pool:
-        return pool.map(work, cases, chunksize=8)
+    outs = [None] * len(cases)
+    pool = ctx.Pool(procs, maxtasksperchild=25)
+    try:
+        jobs = [(k, pool.apply_async(work_chunk, (cases[k:k + chunk],))) for k in range(0, len(cases), chunk)]
+        for k, j in jobs:
+            try:
+                res = j.get(timeout=40 * chunk)
+            except Exception as e:
+                res = [{"errors": ["pool: %r" % (e,)], "sched": [], "obs": [], "tapes": {}, "msgs": [], "devcalls": []}] * len(cases[k:k + chunk])
+            outs[k:k + len(res)] = res
+    finally:
+        pool.terminate()
+    return outs
 
 
 def main():
@@ -29,6 +45,8 @@ def main():
     limit = int(sys.argv[2]) if len(sys.argv) > 2 else None
     rng = random.Random(1)
     cases = engine_cases.gen(rng, tier)
+    if len(sys.argv) > 4:
+        cases = [c for c in cases if c.get("tag", "").startswith(sys.argv[4])]
     if limit:
         cases = cases[:limit]
     t0 = time.time()
